@@ -8,9 +8,11 @@ NOTE = "Trusted base: the simulated transport contract (reliable ordered bytes, 
 claimed = {
  "C01": ("exploration", "Real Message.Write/Read over a scripted stream with seeded fragmentation, EOF-with-data and back-to-back sequences, compared byte for byte with an independent reference codec written from the protocol document; refusal cases must not consume payload bytes.", "4/C01", TECH_STREAM),
  "C04": ("exploration", "Seeded search over schedules of the full client/server stack (K callers x C connections x objects, raw-frame peer sending every message type), with callee-side execution log and per-call unique tokens; each reply is attributed to exactly one execution.", "4/C04", TECH),
+ "C06": ("exploration", "Simulated server with four authenticators (dictionary, yes, no, predicate), one or two hostile raw-frame connections (every message type, every target, forged/duplicate/wrongly-typed/truncated/oversized capability maps, traffic racing a valid authenticate) and an honest client; per-connection lenient model of 'has sent accepted credentials'; probe-service execution log for safety, error answer + end of stream for liveness.", "4/C06", TECH),
  "C08": ("fault_enumeration", "Peer dies mid-encoding: for each sampled valid encoding (8 kinds of decoder), EVERY cut position x 4 end-of-stream manifestations x 2 fragmentations must be refused. Exhaustive over cut positions per encoding; encodings are sampled.", "4/C08", TECH_STREAM),
  "C10": ("exploration", "N concurrent senders on one endpoint over the simulated connection (per-call-atomic writes, arbitrary interleaving between calls, arbitrary read fragmentation and window sizes); wire tap parsed by the reference codec + per-handler subsequence oracle.", "4/C10", TECH),
  "C11": ("fault_enumeration", "Call / concurrent calls / subscribe scenarios over the real client and server; runs are grouped in blocks sharing scenario, configuration and decision stream, and inside a block a fault (reset, close by either side, partial write then error, node crash) is placed at EVERY I/O operation index of the client connection; liveness = every call returned at quiescence, later calls fail, subscription channels closed, disconnect callbacks registered before the fault ran exactly once.", "4/C11", TECH),
+ "C12": ("exploration", "Hostile authenticated raw-frame client (grammar over the generic object and directory actions, mutation of valid frames at every 32-bit field, floods, stall, graceful and mid-frame disconnect) against a full directory server + probe service, followed by a fresh client that must be answered by every object within bounded simulated time; server crashes, deadlocks and fatal runtime errors (worker under an address-space limit) are violations; three sub-batches (no-stall, stall, mutation).", "4/C12", TECH),
  "C13": ("exploration", "Subscribe / cancel / re-subscribe / emit histories by several subscribers (shared and own connections and proxies) and one emitter under seeded schedules; per-subscription oracle bounded by acknowledgement and cancel request (no miss, no duplicate, order, no foreign signal, channel closed) plus a wire tap for 'no event after the unregister acknowledgement'; violation classes name their cause, three of them are known findings.", "4/C13", TECH),
  "C14": ("exploration", "Concurrent get / set (valid, rejected, wrongly typed, by name and by id) / service-side update histories by several clients; porcupine linearizability against a typed-register model, declared-type check on raw reads, exactly-one-event-per-accepted-write accounting per subscriber.", "4/C14", TECH),
  "C16": ("exploration", "Add / remove / remote terminate / call histories on one service with concurrent actors; reference model of live objects: identifier uniqueness, termination hook exactly once, subscribers told, calls invoked after a removal returned are refused without reaching the object, live objects keep answering.", "4/C16", TECH),
